@@ -176,16 +176,28 @@ theorem removeStaleWorker_ok {h : Hints} {s s' : State} {q : ScqId} {w : WId} {r
       obtain ⟨s1, h1, h2⟩ := hh
       subst h1
       refine .inr ⟨wk, s, rfl, .inr ⟨ht, rfl⟩, ?_⟩
-      unfold dropWorker
-      paths h2
-      all_goals (injection h2 with h2; rw [← h2]; simp_all [filterWorkers])
+      unfold dropWorker filterWorkers
+      split
+      · rename_i sq hsq
+        simp only [hsq] at h2
+        split
+        · rw [if_pos (by assumption), pure_ok] at h2; exact h2.symm
+        · rw [if_neg (by assumption), pure_ok] at h2; exact h2.symm
+      · rename_i hsq
+        simp only [hsq, pure_ok] at h2; exact h2.symm
     | some t =>
       simp only [ht, bind_ok] at hh
       obtain ⟨s1, h1, h2⟩ := hh
       refine .inr ⟨wk, s1, rfl, .inl ⟨t, ht, h1⟩, ?_⟩
-      unfold dropWorker
-      paths h2
-      all_goals (injection h2 with h2; rw [← h2]; simp_all [filterWorkers])
+      unfold dropWorker filterWorkers
+      split
+      · rename_i sq hsq
+        simp only [hsq] at h2
+        split
+        · rw [if_pos (by assumption), pure_ok] at h2; exact h2.symm
+        · rw [if_neg (by assumption), pure_ok] at h2; exact h2.symm
+      · rename_i hsq
+        simp only [hsq, pure_ok] at h2; exact h2.symm
 
 /-- Relational induction over `runCleanup`. -/
 theorem runCleanup_rel (R : State → State → Prop) (hrefl : ∀ s, R s s)
